@@ -778,7 +778,8 @@ pub fn run_transport(cfg: &TransportCfg, sc: &mut Sc) {
             let dd = &dirs[d];
             let kind = r.below(10);
             let (msg, what): (Vec<u8>, &str) = if dd.sent.is_empty() || kind == 0 {
-                ({ let n = 16 + r.below(40); r.bytes(n) }, "garbage")
+                // garbage of an ordinary size, of 0..15 bytes (shorter than a tag), and around the 65535-byte limit
+                ({ let n = match r.below(12) { 0 => r.below(16), 1 => [65535usize, 65536, 65537, 70000][r.below(4)], _ => 16 + r.below(40) }; r.bytes(n) }, "garbage")
             } else if kind <= 4 {
                 // the next expected one if it exists
                 match dd.sent.iter().find(|(n, ..)| *n == dd.recv_n) {
